@@ -6,8 +6,10 @@ import (
 	"go/constant"
 	"go/token"
 	"go/types"
+	"strings"
 
 	"npverif/internal/core"
+	"npverif/internal/facts"
 )
 
 // FullRangeTests is C11-e: "covers every port number" is decided by equality
@@ -91,56 +93,111 @@ func FullRangeTests(p *core.Program, r *core.Report, rule string) {
 		r.Lost(rule, "(*PortSet).ContainedIn")
 		return
 	}
-	info := fd.Pkg.TypesInfo
-	other := fd.Obj.Type().(*types.Signature).Params().At(0)
+	// Decided on the path condition of every negative answer given inside a loop over the receiver's named ports, in
+	// ContainedIn or in a method of the type it delegates to: the path must entail that the operand's numbered ports
+	// are NOT the full range (canonical atom full:<operand>.Ports, built from an interval-set equality with the full
+	// interval wherever it is written: in place, in a boolean local, in a one-line helper).
 	ok := false
+	nLoops := 0
 	why := "no loop over the receiver's named ports with a full-range excuse"
-	ast.Inspect(fd.Decl.Body, func(n ast.Node) bool {
-		rs, isRs := n.(*ast.RangeStmt)
-		if !isRs {
-			return true
+	var analyse func(g *core.FuncDecl, depth int)
+	analyse = func(g *core.FuncDecl, depth int) {
+		info := g.Pkg.TypesInfo
+		sig := g.Obj.Type().(*types.Signature)
+		w := facts.NewWalker(info)
+		w.Inline = true
+		w.Atomize = func(w *facts.Walker, e ast.Expr) facts.Formula {
+			c, isC := e.(*ast.CallExpr)
+			if !isC || len(c.Args) != 1 {
+				return nil
+			}
+			fn := core.Callee(w.Info, c)
+			se, isSe := ast.Unparen(c.Fun).(*ast.SelectorExpr)
+			if fn == nil || !isSe || fn.Name() != "Equal" || !isFull(w.Info, c.Args[0]) {
+				return nil
+			}
+			if rs := fn.Type().(*types.Signature).Recv(); rs != nil && core.TypeIs(rs.Type(), core.PkgCommon, "PortSet") {
+				return facts.Atom("fullset:" + w.Path(se.X)) // compares the named ports too
+			}
+			return facts.Atom("full:" + w.Path(se.X))
 		}
-		ast.Inspect(rs.Body, func(m ast.Node) bool {
-			ifs, isIf := m.(*ast.IfStmt)
-			if !isIf {
-				return true
-			}
-			for _, cj := range flattenAnd(ifs.Cond) {
-				ue, isU := ast.Unparen(cj).(*ast.UnaryExpr)
-				if !isU || ue.Op != token.NOT {
-					continue
-				}
-				e := ast.Unparen(ue.X)
-				if id, isID := e.(*ast.Ident); isID {
-					if d, _ := defOf(fd, id); d != nil {
-						e = ast.Unparen(d)
+		inNamedLoop := func() bool {
+			for _, l := range w.Loops {
+				if rs, isRs := l.(*ast.RangeStmt); isRs {
+					if f := core.FieldOf(info, rs.X); f != nil && f.Name() == "NamedPorts" {
+						if root := core.RootIdent(rs.X); root != nil && sig.Recv() != nil && info.ObjectOf(root) == types.Object(sig.Recv()) {
+							return true
+						}
 					}
 				}
-				c, isC := e.(*ast.CallExpr)
-				if !isC {
+			}
+			return false
+		}
+		w.OnStmt = func(st ast.Stmt, f facts.Formula) {
+			if rs, isRs := st.(*ast.RangeStmt); isRs {
+				if fl := core.FieldOf(info, rs.X); fl != nil && fl.Name() == "NamedPorts" {
+					nLoops++
+				}
+			}
+			ret, isRet := st.(*ast.ReturnStmt)
+			if !isRet || len(ret.Results) != 1 || !inNamedLoop() {
+				return
+			}
+			if v, isC := core.ConstString(info, ret.Results[0]); !isC || v != "false" {
+				return
+			}
+			excused := false
+			for _, a := range facts.Atoms(f) {
+				if !strings.HasPrefix(a, "full:") || !strings.HasSuffix(facts.StripVersions(a), ".Ports") {
 					continue
 				}
-				fn := core.Callee(info, c)
-				if fn == nil {
-					continue
+				root := strings.TrimSuffix(strings.TrimPrefix(facts.StripVersions(a), "full:"), ".Ports")
+				isOperand := false
+				for k := 0; k < sig.Params().Len(); k++ {
+					if sig.Params().At(k).Name() == root {
+						isOperand = true
+					}
 				}
-				root := core.RootIdent(c.Fun)
-				onOther := root != nil && info.ObjectOf(root) == other
-				switch {
-				case fn.Name() == "Equal" && len(c.Args) == 1 && isFull(info, c.Args[0]) && onOther:
+				if isOperand && facts.Entails(f, facts.MkNot(facts.Atom(a))) {
+					excused = true
+				}
+			}
+			if excused {
+				if why == "no loop over the receiver's named ports with a full-range excuse" {
 					ok = true
-				case fn.Name() == "IsAll" && onOther:
-					why = "the excuse for a missing named port is `" + core.ExprStr(e) + "`: IsAll compares the named ports too, so an operand with the full range AND a named port of its own is not recognised as covering every number"
-				default:
-					if _, isIdx := ast.Unparen(ue.X).(*ast.IndexExpr); !isIdx {
-						why = "the excuse for a missing named port is `" + core.ExprStr(e) + "`, not equality of the operand's ports with the full range"
+				}
+				return
+			}
+			ok = false
+			why = "a named port missing from the operand makes the answer negative on a path (" + facts.StripVersions(facts.String(f)) + ") that does not establish that the operand's numbered ports differ from the full range: the excuse is not equality of the operand's ports with the full interval (IsAll / PortSet.Equal compare the named ports too; bounds do not imply fullness)"
+		}
+		w.WalkBody(g.Decl.Body, nil)
+		if depth >= 1 {
+			return
+		}
+		for _, callee := range p.CalleesOf(g) {
+			hd := p.ByObj[callee]
+			if hd == nil || hd == g {
+				continue
+			}
+			if rs := callee.Type().(*types.Signature).Recv(); rs != nil && core.TypeIs(rs.Type(), core.PkgCommon, "PortSet") {
+				hasLoop := false
+				ast.Inspect(hd.Decl.Body, func(n ast.Node) bool {
+					if _, isRs := n.(*ast.RangeStmt); isRs {
+						hasLoop = true
 					}
+					return true
+				})
+				if hasLoop {
+					analyse(hd, depth+1)
 				}
 			}
-			return true
-		})
-		return true
-	})
+		}
+	}
+	analyse(fd, 0)
+	if nLoops == 0 {
+		ok = false
+	}
 	r.Check(ok, rule, fd.Key()+": a named port missing from the operand is excused only when the operand's ports equal the full range", p.Pos(fd.Decl.Pos()), "", why)
 }
 
